@@ -413,6 +413,23 @@ def build_paths(r, kind, N, xs, slot0, lines):
     return slots
 
 
+def periodic_contents(r, kind, N):
+    """a block (a power-of-two number of leaves) whose tail is zero-valued, repeated, with the last
+    repetition cut off exactly where the zeros begin: a partially filled right edge that hashes
+    like the complete block before it."""
+    pf = PF[kind] or 1
+    Z = zero_val(kind)
+    blk = pf * r.choice([1, 2, 4])
+    while blk * 2 > max(2, min(N, 40)) and blk > 1:
+        blk //= 2
+    blk = max(blk, 2) if N >= 2 else 1
+    tail = r.randint(1, max(1, blk - 1))
+    B = [val(r, kind, pzero=0.0) for _ in range(blk - tail)] + [Z] * tail
+    reps = r.randint(1, 3)
+    xs = B * reps + B[:blk - tail]
+    return xs[:min(N, 40)]
+
+
 def fam_C06(rng, tier):
     out = []
     for cfg in pick_configs(rng, scale(tier, 70, 400)):
@@ -423,6 +440,9 @@ def fam_C06(rng, tier):
         if r.random() < 0.35:
             k = r.randint(0, ln)
             xs = xs[:k] + [zero_val(kind)] * (ln - k)
+        elif r.random() < 0.35:
+            xs = periodic_contents(r, kind, N)
+            ln = len(xs)
         lines = [cfg_line(cfg)]
         slots = build_paths(r, kind, N, xs, 0, lines)
         # a different content: one element changed, or one zero more / less
@@ -663,6 +683,9 @@ def fam_C09(rng, tier):
                 run = r.choice([1, 2, 3, 4, 8, 16, PF[kind] or 2, 2 * (PF[kind] or 2)])
                 xs += [r.choice([Z, Z, X])] * run
             xs = xs[:ln]
+            if r.random() < 0.3:
+                xs = periodic_contents(r, kind, N)
+                ln = len(xs)
             vec = ln == N and N <= 40 and r.random() < 0.3
             k = 'vec' if vec else 'list'
             lines = [cfg_line(cfg), 'new 0 %s %s' % (k, ' '.join(xs))]
@@ -943,6 +966,28 @@ def fam_C12(rng, tier):
             lines.append('push 1 %s' % val(r, kind))
         lines += ['ssz 1', 'unsszprev 2 list', 'apply 1', 'eq 1 2', 'tovec 2', 'ssz 2']
         out.append(Case(lines, 'ssz-malformed-and-roundtrip', ('ssz_strict',), {'cfg': cfg}))
+    # elements that are themselves lists (of fixed- and of variable-size items): nested offset tables
+    for kind, Ns in (('nest2', [3, 4, 5, 8, 9, 17]), ('nest', [4, 8, 9, 33]), ('var', [3, 8, 9, 33])):
+        for N in Ns:
+            for _ in range(scale(tier, 2, 6)):
+                r = sub(rng)
+                m = r.choice(MAPS)
+                ln = r.randint(0, min(N, 9))
+                xs = [val(r, kind, pzero=0.2) for _ in range(ln)]
+                lines = [cfg_line((kind, N, m)), 'new 1 list ' + ' '.join(xs), 'ssz 1', 'unsszprev 2 list', 'eq 1 2',
+                         'tovec 2', 'ssz 2']
+                if ln:
+                    lines.append('getmut 1 %d %s' % (r.randrange(ln), val(r, kind, pzero=0.0)))
+                if ln < N:
+                    lines.append('push 1 %s' % val(r, kind, pzero=0.0))
+                lines += ['ssz 1', 'unsszprev 3 list', 'apply 1', 'eq 1 3', 'ssz 3', 'root 1', 'root 3']
+                if ln == N:
+                    lines += ['tovector 1 4', 'ssz 4', 'unsszprev 5 vec', 'eq 4 5']
+                good = enc_seq(kind, xs)
+                for b in ([good[:k] for k in sorted({0, 3, 4, 5, len(good) // 2, max(0, len(good) - 1)}) if k < len(good)]
+                          + [good + b'\0']):
+                    lines += ['drop 0', 'unssz 0 list %s' % hexs(b), 'sszifok 0 %s' % hexs(b)]
+                out.append(Case(lines, 'ssz-nested-elements', ('ssz_strict', 'ssz_roundtrip'), {'cfg': (kind, N, m)}))
     # exhaustive: all byte strings of length <= 3 for the 1-byte kind, N <= 3
     for N in (1, 2, 3):
         for k in ('list', 'vec'):
@@ -1000,6 +1045,7 @@ def fam_C14(rng, tier):
             r = sub(rng)
             g = HistGen(r, cfg, nslots=3, weights={'bulk': 9, 'bulk_bad': 0, 'root': 8, 'sszrt': 4,
                                                    'cow': 8, 'itercow': 4, 'eq': 0}, invalid_rate=0.03)
+            g.entry_ext = False
             lines = g.run(40)
             for h in sorted(g.sh.s):
                 lines += ['tovec %d' % h, 'apply %d' % h, 'root %d' % h, 'ssz %d' % h]
@@ -1148,6 +1194,24 @@ def conc_heavy(rng, tier):
             lines.append('conc-end')
             lines += ['root 0', 'root 1', 'len 0']
         out.append(Case(lines, 'threads-heavy-' + kind, ('no_deadlock',), {'cfg': cfg, 'threads': 16}))
+    # many threads hash fresh, private, very deep and nearly empty trees at once (zero subtrees deeper
+    # than the precomputed table are computed on the fly)
+    for cfg in [('u64', 2 ** 60, 'btree'), ('h256', 2 ** 63, 'btree'), ('u64', 2 ** 63, 'btree')] * scale(tier, 6, 12):
+        kind, N, m = cfg
+        r = sub(rng)
+        # shared, not yet hashed, very deep trees: every thread starts by hashing them at the same time
+        lines = [cfg_line(cfg), 'new 0 list ' + ' '.join(val(r, kind) for _ in range(r.randint(0, 3))),
+                 'new 1 list ' + ' '.join(val(r, kind) for _ in range(r.randint(1, 5))), 'conc-begin']
+        for t in range(16):
+            priv = 100 + 10 * t
+            xs = [val(r, kind) for _ in range(r.randint(0, 5))]
+            for o in ['root 0', 'root 1', 'new %d list %s' % (priv, ' '.join(xs)), 'root %d' % priv,
+                      'push %d %s' % (priv, val(r, kind)), 'apply %d' % priv, 'root %d' % priv, 'pop %d 1' % priv,
+                      'root %d' % priv]:
+                lines.append('T %d %s' % (t, o))
+        lines += ['conc-end', 'root 0', 'root 1', 'new 2 list ' + ' '.join(val(r, kind) for _ in range(3)), 'root 2',
+                  'empty 3', 'root 3']
+        out.append(Case(lines, 'threads-deep-trees', ('no_deadlock',), {'cfg': cfg, 'threads': 16}))
     return out
 
 
